@@ -3,6 +3,7 @@ import GenlmModel.Proofs.PrefixWeight
 import GenlmModel.Proofs.BoolLink
 import GenlmModel.Proofs.Mask
 import GenlmModel.Proofs.AddEosDerives
+import GenlmModel.Proofs.EndToEndLMBool
 /-! # C01 — the next-token mask is exactly the set of viable continuations
 The oracle `nextSet` the real `BoolCFGLM.p_next` is compared with is a verified decision procedure:
 for EVERY grammar (ε rules, unary cycles, useless symbols, empty language) and EVERY context. -/
@@ -37,4 +38,18 @@ alias derives_iff_boolean_WN := Genlm.Derives_iff_WN_bool
 alias mask_via_WN := Genlm.mask_via_WN
 /-- … and as the support of the prefix grammar `G @ prefix_transducer` (what BoolCFGLM's parsers run on) -/
 alias mask_via_prefix_grammar := Genlm.mask_via_prefix_grammar
+
+/-! ## END TO END: `BoolCFGLM.p_next` as the code runs it — EOS wrapping, Boolean map (`w > 0`), prefix grammar, the back end's
+preprocessing (cnf twice for CKY; nullaryremove / unarycycleremove / renumber for Earley) and its next-token recursion -/
+/-- THE mask theorem: a token is offered iff it is in the verified decision procedure's `nextSet`; an ordinary token iff the
+extended context is a viable prefix, EOS iff the context is a sentence, and a non-viable context gets the empty mask -/
+alias bool_lm_end_to_end := Genlm.bool_lm_end_to_end
+alias bool_lm_end_to_end_positive_weights := Genlm.bool_lm_end_to_end_pos
+/-- instances for the two back ends -/
+alias bool_cfg_lm_cky := Genlm.bool_cfg_lm_cky
+alias bool_cfg_lm_earley := Genlm.bool_cfg_lm_earley
+/-- the Boolean preprocessing (cnf with the true Boolean null weights / closure, which always stabilise) preserves the language -/
+alias cnf_bool_preserves := Genlm.cnfB_BL_E10
+alias cky_mask_on_cnf := Genlm.incCky_mask_E10
+alias earley_mask_on_acyclic := Genlm.earley_mask_E10
 end Genlm.Props.C01
